@@ -18,10 +18,17 @@ Added after the coverage audit: handler verdicts None and 0 besides False (each 
 propagate: only True swallows; the model sees `false` for all three); every schedule
 call passes a fresh state object and the action checks that it is invoked with that
 very object (vt.run_impl, trace event "badstate"); `cancel` disposes the disposable
-RETURNED by CatchScheduler.schedule* (not the inner scheduler's handle)."""
+RETURNED by CatchScheduler.schedule* (not the inner scheduler's handle).
+
+Family `handed` (harness/c42_handed.py, oracle-only): wrapped schedulers that hand their actions a scheduler OTHER than
+themselves -- a recording stub scheduler handing out child stubs (identity / due time / state of every nested
+schedule call, nested raises, `now` of the handed scheduler; differential run on the bare stub) and the real
+NewThreadScheduler / ThreadPoolScheduler (a nested action runs on its parent's thread, after the parent returned, as
+on the bare scheduler)."""
 import itertools
 import json
 
+import c42_handed
 import lib
 import vt
 
@@ -259,6 +266,18 @@ def run(chk):
                                                     "with; disposing the returned disposable cancels; "
                                                     "non-raising actions behave as on the wrapped scheduler"},
                       size=size)
+    # family `handed`: the wrapped scheduler hands its actions another scheduler than itself (oracle-only)
+    hfails, hhist, hnontrivial = c42_handed.run_family(chk)
+    hist["origin"]["handed-stub"] = sum(hhist["stub_programs"].values())
+    hist["origin"]["handed-threads"] = sum(hhist["thread_scenarios"].values())
+    hist["handed"] = hhist
+    nontrivial |= {"handed:" + x for x in hnontrivial}
+    hfails.sort(key=lambda f: f[0])
+    for size, sig, rep in hfails:
+        if sig in seen:
+            continue
+        seen.add(sig)
+        chk.violation(sig, rep, size=size)
     bad, logs = lib.correspondence("C42", "corr", IMPORTS, CASE_TY, "model", "(list_eqb oev_eqb)", gal,
                                    prelude=PRELUDE)
     chk.cov["traces_validated_against_impl"] = len(gal)
@@ -281,7 +300,23 @@ def run(chk):
                        "verdicts are False, None and 0 in rotation / at random (never a truthy non-True value); every "
                        "schedule call carries a fresh state object whose identity the action checks; cancel disposes "
                        "the disposable returned by CatchScheduler.schedule*.  non-trivial = "
-                       "distinct (world, history, verdicts) in which the handler was called at least once")
+                       "distinct (world, history, verdicts) in which the handler was called at least once.  Family "
+                       "`handed` (oracle-only, no model): (1) programs on a recording stub scheduler that hands every "
+                       "invoked action a fresh child stub / one shared child / itself / a rotation of these, each stub "
+                       "with its own clock skew: exhaustive top-level way {now, rel, abs} x nested way {now, rel as "
+                       "timedelta, rel as float, abs as datetime, abs as float, periodic} x second-level way {none, "
+                       "now, rel, abs, periodic} x raise {nowhere, level 1, level 2} x 4 policies, plus random programs "
+                       "(depth <= 3, raises, periodic jobs raising / disposing themselves at the k-th tick, cancel of "
+                       "returned disposables, verdicts True/False/None/0); every schedule call made through the handed "
+                       "scheduler must arrive once at exactly the stub handed to the running action with the due time "
+                       "and state object asked for, `now` of the handed scheduler is that stub's, raises are routed, "
+                       "and the event log equals the bare stub's (whole log if nothing raises, else the actions' own "
+                       "events); (2) real NewThreadScheduler / ThreadPoolScheduler(4): outer {now, rel, abs} -> inner "
+                       "{now, rel float, rel timedelta, abs, periodic} -> optional second level, raise nowhere / inner "
+                       "/ second level (handler accepts): same thread as the parent, not started before the parent "
+                       "returned, state identity -- each demanded only if it holds on the bare scheduler; counted "
+                       "non-trivial = stub programs with a nested call from an action that was handed another "
+                       "scheduler than the wrapped one, and every thread scenario")
     chk.cov["input_distribution"] = hist
     chk.add_samples([{"world": c[0], "history": c[1], "verdicts": c[2]} for c in cases[::max(1, len(cases) // 6)]])
     return chk.finish(
@@ -291,14 +326,27 @@ def run(chk):
                        "scheduler (CatchScheduler has no such methods)",
                        "state forwarding (identity of a fresh object per schedule call) and cancellation through the "
                        "returned disposables are judged by the oracles only (no counterpart in the model); the model "
-                       "sees every verdict other than True as false"],
-        assumptions=["the inner scheduler is a virtual-time scheduler (single thread)",
+                       "sees every verdict other than True as false",
+                       "family `handed` (harness/c42_handed.py) is oracle-only: the recording stub scheduler RecStub and "
+                       "its run loop are written in the harness (an exception leaving an action ends that unit of work "
+                       "only); the real-thread scenarios use wall-clock waits (40 ms linger, 10 ms delays, 5 s "
+                       "watchdogs) and demand of the CatchScheduler run only what the bare run of the same scenario "
+                       "showed"],
+        assumptions=["the inner scheduler is a virtual-time scheduler (single thread) in the families tied to the model; "
+                     "a single-threaded recording stub or NewThreadScheduler/ThreadPoolScheduler in family `handed`",
                      "the handler itself does not raise; exceptions are Exception subclasses",
                      "handler verdicts are True, False, None or 0 (no truthy value other than True)"])
 
 
 def replay(chk, path):
     d = json.load(open(path))
+    if d.get("family") in ("handed-stub", "handed-threads"):
+        bad = c42_handed.replay(d)
+        for sig, detail in bad:
+            print("FAILS", sig, detail)
+        if bad:
+            print(f"VIOLATION property=C42 replay={path}")
+        return 1 if bad else 0
     if "history" not in d:
         print(json.dumps(d, indent=1))
         return 1
